@@ -108,6 +108,23 @@ func run(c *Case) {
 			}))
 		})
 	}
+	// a watcher: the Terminated notice is sent at the very end of tryTerminated (after the persist and the unregistration), so
+	// its arrival — not a sleep — tells that the old generation has finished writing
+	gone := make(chan struct{}, 16)
+	type watchReq struct{ ref vivid.ActorRef }
+	watcher := sys.ActorOfF(func() vivid.Actor {
+		return vivid.FunctionalActor(func(ctx vivid.ActorContext) {
+			switch m := ctx.Message().(type) {
+			case watchReq:
+				ctx.Watch(m.ref)
+				ctx.Reply(true)
+			case *vivid.OnTerminated:
+				if !m.TerminatedActor.Equal(ctx.Ref()) {
+					gone <- struct{}{}
+				}
+			}
+		})
+	})
 	wait := func() ([]int, bool) {
 		select {
 		case s := <-launched:
@@ -134,18 +151,17 @@ func run(c *Case) {
 		if g.Restart {
 			sys.Tell(ref, crash{})
 		} else {
-			sys.Terminate(ref, true)
-			dl := time.Now().Add(4 * time.Second)
-			for {
-				mu.Lock()
-				e := ended
-				mu.Unlock()
-				if e != nil || time.Now().After(dl) {
-					break
-				}
-				time.Sleep(200 * time.Microsecond)
+			if _, err := sys.FutureAsk(watcher, watchReq{ref}, 4*time.Second).Result(); err != nil {
+				c.Err = fmt.Sprintf("generation %d: the watcher did not answer: %v", i, err)
+				return
 			}
-			time.Sleep(2 * time.Millisecond) // the rest of tryTerminated (persist, unregistration)
+			sys.Terminate(ref, true)
+			select {
+			case <-gone:
+			case <-time.After(4 * time.Second):
+				c.Err = fmt.Sprintf("generation %d never terminated", i)
+				return
+			}
 			ref = spawn()
 		}
 		s, ok := wait()
